@@ -981,3 +981,41 @@ def _lsum_ext_inst(eng, st, name, l1, g1, l2, g2):
     concl = z3.ForAll([k], z3.Implies(z3.And(0 <= k, k <= n1), S(id1, k) == S(id2, k)), patterns=[S(id1, k), S(id2, k)])
     eng.used_lemmas.add("L_lsum_ext")
     return LemmaInst("L_lsum_ext", prem, concl)
+
+
+# ----------------------------------------------------------------------------- C07 / C09: raising the threshold can only remove detections
+# A lemma over the posts of the greedy selections. Two runs on the same scores table with thresholds t1 <= t2; run i makes K_i picks, w_i(tau) is the
+# interval / candidate picked at time tau (the skolem witness of the post in pick-time order), HIT(b, a): pick a removes interval b (b contains a's
+# maximiser / overlaps a's inner interval). Hypotheses = the posts `greedy` (score above threshold, alive when picked, at least as high as every
+# alive interval, strictly higher than alive ones of smaller index) and `exhaustive` of both runs and HIT(a, a) (requires). By strong induction on
+# the pick time: run 2's pick tau exists in run 1 and is the same pick - so run 2's picks are a prefix of run 1's.
+def _greedy_mono_proof():
+    sc = z3.Function("sc!G", _I, _R)
+    HIT = z3.Function("HIT!G", _I, _I, z3.BoolSort())
+    w = {i: z3.Function(f"w{i}!G", _I, _I) for i in (1, 2)}
+    dead = {i: z3.Function(f"dead{i}!G", _I, _I) for i in (1, 2)}      # least pick time that hits b (K_i if none): b is alive at time q iff dead_i(b) >= q
+    K = {i: z3.Int(f"K{i}!G") for i in (1, 2)}
+    t = {i: z3.Real(f"t{i}!G") for i in (1, 2)}
+    N, tau, tp, b, q = z3.Ints("N!G tau!G tp!G b!G q!G")
+    hyps = [t[1] <= t[2], N >= 0, K[1] >= 0, K[2] >= 0]
+    for i in (1, 2):
+        # definition of dead_i (least hitting time)
+        hyps.append(z3.ForAll([b], z3.And(0 <= dead[i](b), dead[i](b) <= K[i], z3.Implies(dead[i](b) < K[i], HIT(b, w[i](dead[i](b))))), patterns=[dead[i](b)]))
+        hyps.append(z3.ForAll([b, q], z3.Implies(z3.And(0 <= q, q < K[i], HIT(b, w[i](q))), dead[i](b) <= q), patterns=[HIT(b, w[i](q))]))
+        # post `greedy` of run i in pick-time order (alive(b, q) <=> dead_i(b) >= q)
+        hyps.append(z3.ForAll([q], z3.Implies(z3.And(0 <= q, q < K[i]), z3.And(0 <= w[i](q), w[i](q) < N, sc(w[i](q)) > t[i], dead[i](w[i](q)) >= q)),
+                              patterns=[w[i](q)]))
+        hyps.append(z3.ForAll([q, b], z3.Implies(z3.And(0 <= q, q < K[i], 0 <= b, b < N, dead[i](b) >= q),
+                                                 z3.And(sc(b) <= sc(w[i](q)), z3.Implies(b < w[i](q), sc(b) < sc(w[i](q))))),
+                              patterns=[z3.MultiPattern(w[i](q), dead[i](b))]))
+        # post `exhaustive`: an interval scoring above the threshold is hit by some pick
+        hyps.append(z3.ForAll([b], z3.Implies(z3.And(0 <= b, b < N, sc(b) > t[i]), dead[i](b) < K[i]), patterns=[dead[i](b)]))
+    ih = z3.ForAll([tp], z3.Implies(z3.And(0 <= tp, tp < tau), z3.And(tp < K[1], w[1](tp) == w[2](tp))), patterns=[w[2](tp), w[1](tp)])
+    base = hyps + [0 <= tau, tau < K[2], ih]
+    a2 = w[2](tau)
+    a1 = w[1](tau)
+    return [(".exists_in_run1", base, z3.And(dead[1](a2) >= tau, tau < K[1])),
+            (".same_pick", base + [dead[1](a2) >= tau, tau < K[1]], z3.And(dead[2](a1) >= tau, a1 == a2))]
+
+
+LEMMA_PROOFS["L_greedy_mono"] = _greedy_mono_proof
